@@ -123,8 +123,11 @@ class Watch:
             out.append("%s %d %d %s" % (C.question_line(q), int(than), len(known), " ".join(C.rec_line(r) for r in known)))
         return out
 
+    def snap_histq(self):
+        return [{"name": q.name, "type": q.type, "cls": q.class_, "than": int(than)} for q, (than, _k) in self.zc.question_history._history.items()]
+
     def open(self, kind, now, recs=None):
-        self.cur = {"k": kind, "now": int(now), "cache": self.snap(self.snap_cache()), "hist": self.snap_hist() if kind != "U" else [],
+        self.cur = {"k": kind, "now": int(now), "cache": self.snap(self.snap_cache()), "hist": self.snap_hist() if kind != "U" else [], "histq": self.snap_histq() if kind != "U" else [],
                     "recs": self.snap(recs) if recs is not None else [], "draw0": len(self.sim.draws), "send0": len(self.sim.net.log),
                     "asked": None, "ret": None, "wait": None, "woke": False}
         self.blocks.append(self.cur)
@@ -169,6 +172,39 @@ def run_scenario(sc):
             for p in out.packets():
                 host.inject(p, "10.0.0.9", 5353)
 
+        rsp = sc.get("responder")
+        if rsp:
+            # a responder on the link that owns the instance and answers exactly the questions it is asked
+            # (answers already listed as known answers are left out), `delay` ms after each query of the host
+            from zeroconf import DNSIncoming as _In
+
+            own = {(NAME.lower(), 33): [{"k": "srv", "name": NAME, "ttl": rsp["ttl"], "server": rsp["host"], "port": rsp["port"],
+                                        "prio": rsp.get("prio", 0), "weight": rsp.get("weight", 0), "unique": True}],
+                   (NAME.lower(), 16): [{"k": "txt", "name": NAME, "ttl": rsp["ttl"], "text": rsp["text"], "unique": True}],
+                   (rsp["host"].lower(), 1): [{"k": "a", "name": rsp["host"], "ttl": rsp["ttl"], "addr": a, "unique": True} for a in rsp.get("a", [])],
+                   (rsp["host"].lower(), 28): [{"k": "aaaa", "name": rsp["host"], "ttl": rsp["ttl"], "addr": a, "unique": True} for a in rsp.get("aaaa", [])]}
+
+            def on_send(t, src, data, addr):
+                m = _In(data)
+                if not m.is_query():
+                    return
+                known = set(m.answers())
+                recs = []
+                for ty in (33, 16, 1, 28):     # SRV and TXT before the addresses, as a responder orders them
+                    for q in m.questions:
+                        if q.type == ty and q.class_ == const._CLASS_IN:
+                            for spec in own.get((q.name.lower(), ty), []):
+                                r = mk_record(spec)
+                                if r not in known and r not in recs:
+                                    recs.append(r)
+                if recs:
+                    out = DNSOutgoing(const._FLAGS_QR_RESPONSE | const._FLAGS_AA)
+                    for r in recs:
+                        out.add_answer_at_time(r, 0)
+                    for pkt in out.packets():
+                        sim.loop.call_later(rsp["delay"] / 1000.0, host.inject, pkt, "10.0.0.7", 5353)
+
+            sim.net.on_send = on_send
         pre_ev = sc.get("preevents", [])
         warm = max([sc.get("warmup", 0)] + [e["before"] for e in pre_ev])
         for ev in pre_ev:
@@ -394,6 +430,29 @@ def oracle(sc, obs):
                 held = [r for r in b["cache"] if r["type"] == q.type and r["cls"] == 1 and r["name"].lower() == q.name.lower() and not stale(r, b["now"])]
                 if held:
                     out.append(("C18:asked-known", "query #%d asks type %d although an unstale answer is cached" % (i + 1, q.type)))
+    # --- a question is omitted only when an unstale answer is held (or, under QM, the question was asked on the link
+    #     within the last 999 ms: duplicate-question suppression, C13)
+    for i, b in enumerate(gens):
+        line, m = parse_sent(b["sent"])
+        if line.startswith("multi"):
+            continue
+        asked_q = {(q.name.lower(), q.type) for q in m.questions if q.class_ == 1} if m is not None else set()
+        f = b["fields"]
+        for (qname, qtype) in ((f["name"], 33), (f["name"], 16), (f["server"] or f["name"], 1), (f["server"] or f["name"], 28)):
+            if (qname.lower(), qtype) in asked_q:
+                continue
+            if qtype in (33, 16):
+                if any(r["type"] == qtype and r["cls"] == 1 and r["name"].lower() == qname.lower() and not stale(r, b["now"]) for r in b["cache"]):
+                    continue     # held
+            if b["asked"] == 2 and any(hq["type"] == qtype and hq["cls"] == 1 and hq["name"].lower() == qname.lower() and b["now"] - hq["than"] <= 999
+                                       for hq in b["histq"]):
+                continue         # may have been suppressed as a duplicate question
+            out.append(("C18:omitted-unheld", "query #%d (%s) omits the type-%d question for %s although no unstale answer is held"
+                        % (i + 1, "QU" if b["asked"] == 1 else "QM", qtype, qname)))
+    # --- with a responder that answers every question, the questions the lookup must ask lead to success
+    if sc.get("liveness") and obs["result"] is not True:
+        out.append(("C18:responder-not-heard", "a responder owning the instance answered every question within %d ms, "
+                    "yet the lookup failed at its timeout of %d ms" % (sc["responder"]["delay"], timeout)))
     if obs.get("errors"):
         out.append(("C18:exception", "exception in the event loop: %s" % obs["errors"][0]))
     if obs.get("listener_left"):
@@ -536,6 +595,56 @@ def gen_scenario(rng, idx):
     return sc
 
 
+def gen_responder_scenario(rng, idx):
+    """a responder owns the instance; the cache holds old copies of *its* records (same rdata) in chosen states --
+    stale or expired-but-unpurged SRV/TXT with no fresh copy in particular; nothing else arrives"""
+    host = rng.choice(HOSTS)
+    rsp = {"host": host, "port": rng.choice([80, 8080]), "prio": 0, "weight": 0, "text": rng.choice(["03613d30", "", "03613d31"]),
+           "a": rng.sample(V4, rng.randint(0, 2)), "aaaa": [], "ttl": rng.choice([120, 120, 4500, 10]), "delay": rng.choice([0, 1, 7, 20, 50])}
+    if not rsp["a"] or rng.random() < 0.3:
+        rsp["aaaa"] = rng.sample(V6, rng.randint(1, 2))
+    timeout = rng.choice([1000, 1500, 3000, 10000, rng.randint(1000, 10000)])
+    sc = {"timeout": timeout, "forced": rng.choice([0, 0, 0, 1, 2]), "draws": [rng.choice([20, 120, rng.randint(20, 120)]) for _ in range(12)],
+          "simseed": rng.randint(0, 10**6), "maxdelay": rng.choice([0, 0, 3]), "warmup": rng.choice([0, 0, 137, 9000]),
+          "pre": [], "events": [], "prehist": [], "responder": rsp, "liveness": True}
+
+    def age_state(ttl, states):
+        st = rng.choice(states)
+        full, half = ttl * 1000, ttl * 500
+        if st == "fresh":
+            return rng.choice([1, 1000, max(1, half - 1)])
+        if st == "stale":
+            return rng.choice([half, half + 1, max(half, full - 1), rng.randint(half, max(half, full - 1))])
+        return rng.choice([full, full + 1, full + 4000, full + rng.randint(0, 9000)])    # expired, unpurged
+
+    def spell(h):
+        return rng.choice(HOST_SPELLINGS[h])
+
+    # SRV / TXT: none, or one or two old copies; mostly without a fresh one
+    for kind in ("srv", "txt"):
+        states = rng.choice([[], ["stale"], ["expired"], ["expired"], ["stale", "expired"], ["expired", "expired"], ["fresh"], ["expired", "fresh"]])
+        for j, st in enumerate(states):
+            if j > 0 and st != "expired":
+                continue      # a second copy is an older version of the record (other rdata, else it would be the same cache entry): expired only
+            ttl = rng.choice([120, 10, 4500])
+            if kind == "srv":
+                r = {"k": "srv", "name": rng.choice(NAME_SPELLINGS), "ttl": ttl, "server": spell(host), "port": rsp["port"] + j, "prio": 0, "weight": 0, "unique": True}
+            else:
+                r = {"k": "txt", "name": rng.choice(NAME_SPELLINGS), "ttl": ttl, "text": rsp["text"] if j == 0 else "03783d39", "unique": True}
+            r["age"] = age_state(ttl, [st])
+            sc["pre"].append(r)
+    for a in rsp["a"]:
+        if rng.random() < 0.5:
+            ttl = rng.choice([120, 10])
+            sc["pre"].append({"k": "a", "name": spell(host), "ttl": ttl, "addr": a, "unique": True, "age": age_state(ttl, ["fresh", "stale", "expired", "expired"])})
+    for a in rsp["aaaa"]:
+        if rng.random() < 0.5:
+            ttl = rng.choice([120, 10])
+            sc["pre"].append({"k": "aaaa", "name": spell(host), "ttl": ttl, "addr": a, "unique": True, "age": age_state(ttl, ["fresh", "stale", "expired", "expired"])})
+    rng.shuffle(sc["pre"])
+    return sc
+
+
 def nontriv_key(sc, obs):
     b0 = obs["blocks"][0]
     kinds = tuple(sorted({(r["type"], "E" if expired(r, b0["now"]) else ("S" if stale(r, b0["now"]) else "F")) for r in b0["cache"]}))
@@ -596,11 +705,13 @@ def run(ctx):
         n *= 4
     corpus = [body.get("case", body) for _, body in C.load_corpus("C18")]
     check_cases(corpus, res, ctx, "corpus")
-    cases = [gen_scenario(rng, i) for i in range(n)]
+    cases = [gen_responder_scenario(rng, i) if i % 5 == 4 else gen_scenario(rng, i) for i in range(n)]
     check_cases(cases, res, ctx, "gen")
     res.rule = ("one lookup per scenario on a simulated host: cache pre-filled with 0-2 SRV, 0-2 TXT, 0-3 A, 0-2 AAAA per host "
                 "(fresh / stale / expired-unpurged / on the boundary / expiring during the lookup; TTL 1 s-4500 s; names in several spellings), "
                 "0-4 response or foreign-query datagrams at times around each query instant and the deadline, timeouts 200 ms-10 s, "
+                "every fifth scenario: a responder owning the instance answers exactly the questions asked while the cache holds old copies of its records "
+                "(stale / expired-unpurged SRV/TXT without a fresh copy), "
                 "question type unforced/QU/QM, jitter draws on {20,120,random}; non-trivial = distinct (cache kinds x state, block shape, result, forced)")
     return res
 
